@@ -1,5 +1,5 @@
 SPECIFICATION Spec
 CONSTANTS
   NFields = 8
-  NVariants = 4
+  NVariants = 8
 CHECK_DEADLOCK FALSE
